@@ -192,7 +192,9 @@ C14_Violations(r) ==
      \cup (IF r.wf /\ \E l \in 1..Len(L) : Len(L[l].parent) = 2 /\ L[l].parent[1] < l
                        /\ L[l].parent[2] \notin RangeOf(L[L[l].parent[1]].tokens) THEN {"parent_token"} ELSE {})
      \cup (IF r.wf /\ ~(Cardinality({l \in 1..Len(L) : L[l].typ = "Eof"}) = 1
-                        /\ \A l \in 1..Len(L) : L[l].typ = "Eof" => L[l].tokens = <<n>>) THEN {"eof_line"} ELSE {})
+                        /\ \A l \in 1..Len(L) : L[l].typ = "Eof" => L[l].tokens = <<n>>
+                        \* a line holding the end-of-file token IS an end-of-file line
+                        /\ \A q \in 1..Len(L) : n \in RangeOf(L[q].tokens) => L[q].typ = "Eof") THEN {"eof_line"} ELSE {})
 
 ---------------------------------------------------------------------------
 (* C15 on one call with cursors (the text-unchanged clause is a relation, see Session) *)
